@@ -502,8 +502,8 @@ class BatteryDistributionAlgorithm:
         for ratio_data in battery_availability_ratio:
             inverter_set = _InverterSet(ratio_data.inverter_ids)
             # ratio = 0, means all remaining batteries reach max SoC lvl or have no
-            # capacity
-            if is_close_to_zero(ratio):
+            # capacity; a battery whose own ratio is 0 has no SoC headroom either.
+            if is_close_to_zero(ratio) or is_close_to_zero(ratio_data.ratio):
                 distribution[inverter_set] = _Power(
                     upper_bound=0.0,
                     power=0.0,
